@@ -81,7 +81,7 @@ ValidTime(h, mi, s, ns) == h >= 0 /\ h <= 23 /\ mi >= 0 /\ mi <= 59 /\ s >= 0 /\
 \* re-derived: era arithmetic on March-based years)
 DaysFromCivil(y0, m, d) ==
     LET y   == IF m <= 2 THEN y0 - 1 ELSE y0
-        era == (IF y >= 0 THEN y ELSE y - 399) \div 400
+        era == y \div 400                     \* floor division
         yoe == y - era * 400
         mp  == IF m > 2 THEN m - 3 ELSE m + 9
         doy == (153 * mp + 2) \div 5 + d - 1
